@@ -20,6 +20,7 @@ import (
 
 type histField struct {
 	Shape  shape   `json:"shape"`
+	Extra  *shape  `json:"second_shape_combined_from_the_shared_buffer_slice,omitempty"`
 	Ctor   bool    `json:"built_by_marching_constructor"`
 	Margin float64 `json:"domain_margin_cells,omitempty"`
 	Where  string  `json:"where"`
@@ -75,34 +76,40 @@ func genHistory(c *run.Ctx) *history {
 		switch r.Intn(3) {
 		case 0:
 			s.Kind = "sphere"
-			s.R = (2.5 + shrink + uni(r, 0, 5.5)) * h
+			s.R = math.Min(2.5+shrink+uni(r, 0, 5.5), 9) * h
 			s.C = vscale(centre, h)
 		case 1:
 			s.Kind = "box"
-			s.Size = vec{2 * (2.5 + shrink + uni(r, 0, 5.5)) * h, 2 * (2.5 + shrink + uni(r, 0, 5.5)) * h, 2 * (2.5 + shrink + uni(r, 0, 5.5)) * h}
+			s.Size = vec{2 * math.Min(2.5+shrink+uni(r, 0, 5.5), 9) * h, 2 * math.Min(2.5+shrink+uni(r, 0, 5.5), 9) * h, 2 * math.Min(2.5+shrink+uni(r, 0, 5.5), 9) * h}
 			s.C = vscale(centre, h)
 		default:
 			s.Kind = "capsule"
-			s.R = (2.5 + shrink + uni(r, 0, 1.5)) * h
+			s.R = math.Min(2.5+shrink+uni(r, 0, 1.5), 5.5) * h
 			d := vec{uni(r, -3.5, 3.5), uni(r, -3.5, 3.5), uni(r, -3.5, 3.5)}
 			s.C, s.E = vscale(vsub(centre, d), h), vscale(vadd(centre, d), h)
 		}
 		f := histField{Shape: s, Where: where}
 		// constructor domains: Sphere hugs the shape, Line adds a radius, Box adds 0.5 units (<= 6 cells)
-		if r.Intn(2) == 0 {
+		switch r.Intn(3) {
+		case 0:
 			f.Ctor = true
-		} else {
+		case 1:
 			f.Margin = uni(r, 0.3, 2) * h
+		default: // a union of two constructor fields, built through the history's shared buffer slice
+			f.Ctor = true
+			e := shape{Kind: "sphere", Strength: 1, R: math.Min(2.5+shrink+uni(r, 0, 2), 7) * h,
+				C: vscale(vadd(centre, vec{uni(r, -1.5, 1.5), uni(r, -1.5, 1.5), uni(r, -1.5, 1.5)}), h)}
+			f.Extra = &e
 		}
 		return f
 	}
-	// every shape reaches at most 8 cells (+ <= 6 cells of constructor domain + 1 of padding) from its centre
+	// every shape reaches at most 9 cells (+ <= 6 cells of constructor domain + 1 of padding) from its centre
 	var c1, c2, c3 vec
 	for k := 0; k < 3; k++ {
-		mid := base(k) + uni(r, 40, 60)
-		c1[k], c2[k], c3[k] = mid+uni(r, -4, 4), mid+uni(r, -4, 4), mid+uni(r, -4, 4)
+		mid := base(k) + uni(r, 46, 54)
+		c1[k], c2[k], c3[k] = mid+uni(r, -2, 2), mid+uni(r, -2, 2), mid+uni(r, -2, 2)
 	}
-	c1[a] = base(a) + uni(r, 42, 58)
+	c1[a] = base(a) + uni(r, 44, 56)
 	c2[a] = base(a) + blockCells + uni(r, -3, 3) // straddles this block and the next one
 	hs.Fields = []histField{mk(c1, "inside the block"), mk(c2, fmt.Sprintf("across the upper boundary of axis %d", a))}
 	if r.Intn(3) > 0 {
@@ -114,7 +121,7 @@ func genHistory(c *run.Ctx) *history {
 			c3[a2] = base(a2) + blockCells + uni(r, -3, 3)
 			hs.Fields = append(hs.Fields, mk(c3, fmt.Sprintf("across the upper boundary of axis %d", a2)))
 		default:
-			c3[a] = base(a) + blockCells + uni(r, 40, 60)
+			c3[a] = base(a) + blockCells + uni(r, 44, 56)
 			hs.Fields = append(hs.Fields, mk(c3, "inside the next block"))
 		}
 	}
@@ -148,7 +155,11 @@ func (hs *history) describe(upto int) string {
 			break
 		}
 		if s.Op == "add" {
-			p = append(p, fmt.Sprintf("%s(%s %s)", s.Adder, hs.Fields[s.Field].Shape, hs.Fields[s.Field].Where))
+			extra := ""
+			if e := hs.Fields[s.Field].Extra; e != nil {
+				extra = " + " + e.String() + " via CombineFields from a reused slice"
+			}
+			p = append(p, fmt.Sprintf("%s(%s%s %s)", s.Adder, hs.Fields[s.Field].Shape, extra, hs.Fields[s.Field].Where))
 		} else {
 			p = append(p, fmt.Sprintf("%s(%v)", s.API, s.Cut))
 		}
@@ -222,10 +233,23 @@ func historyCase(c *run.Ctx) run.Result {
 	res.Sample = hs
 	attr := modeling.PositionAttribute
 	fields := make([]marching.Field, len(hs.Fields))
+	unions := 0
 	lo, hi := vec{math.Inf(1), math.Inf(1), math.Inf(1)}, vec{math.Inf(-1), math.Inf(-1), math.Inf(-1)}
 	if p := run.Try(func() {
+		buf := make([]marching.Field, 0, 3)
 		for i, f := range hs.Fields {
-			fields[i] = f.polyform(attr)
+			if f.Extra != nil {
+				// the caller's buffer is refilled for every union and cleared at the end, long before anything is sampled
+				buf = append(buf[:0], f.Shape.polyField(), f.Extra.polyField())
+				if i%2 == 0 {
+					fields[i] = marching.CombineFields(buf...)
+				} else {
+					fields[i] = buf[1].Combine(buf[:1]...)
+				}
+				unions++
+			} else {
+				fields[i] = f.polyform(attr)
+			}
 			mn, mx := fields[i].Domain.Min(), fields[i].Domain.Max()
 			for k, v := range [3]float64{mn.X(), mn.Y(), mn.Z()} {
 				lo[k] = math.Min(lo[k], v)
@@ -233,6 +257,9 @@ func historyCase(c *run.Ctx) run.Result {
 			for k, v := range [3]float64{mx.X(), mx.Y(), mx.Z()} {
 				hi[k] = math.Max(hi[k], v)
 			}
+		}
+		for i := range buf[:cap(buf)] {
+			buf[:cap(buf)][i] = marching.Field{}
 		}
 	}); p != nil {
 		res.Violate("field-constructor-panic", "marching field constructors", "history", fmt.Sprintf("%s (at %s) || case: %s", p.Value, p.Site, hs.describe(-1)), hs)
@@ -279,6 +306,43 @@ func historyCase(c *run.Ctx) run.Result {
 					g.sampled[g.idx(q)], g.in[g.idx(q)] = ok, ok && v < step.Cut
 				}
 			}
+		}
+		// the canvas must hold, wherever it was sampled, the union of the shapes as they were when the fields were built
+		var shapes []shape
+		for _, fi := range added {
+			shapes = append(shapes, hs.Fields[fi].Shape)
+			if e := hs.Fields[fi].Extra; e != nil {
+				shapes = append(shapes, *e)
+			}
+		}
+		refField := unionField(shapes)
+		mismatch, firstMis := 0, ""
+		for z := g.lo[2]; z < g.lo[2]+g.n[2]; z++ {
+			for y := g.lo[1]; y < g.lo[1]+g.n[1]; y++ {
+				for x := g.lo[0]; x < g.lo[0]+g.n[0]; x++ {
+					q := [3]int{x, y, z}
+					if !g.sampled[g.idx(q)] {
+						continue
+					}
+					p := vec{float64(x) / hs.CPU, float64(y) / hs.CPU, float64(z) / hs.CPU}
+					fv := refField(p)
+					if math.Abs(fv-step.Cut) < 1e-9 {
+						res.Inconclusive = fmt.Sprintf("degenerate (lattice sample within 1e-9 of the threshold): point %v", q)
+						return res
+					}
+					if (fv < step.Cut) != g.in[g.idx(q)] {
+						mismatch++
+						if firstMis == "" {
+							v, _ := rec.value(q)
+							firstMis = fmt.Sprintf("at %v the canvas was given %g, the union of the shapes added so far is %g", p, v, fv)
+						}
+					}
+				}
+			}
+		}
+		if mismatch > 0 {
+			res.Violate("field-sample-mismatch", "marching.CombineFields / constructors sampled on one canvas", "history", fmt.Sprintf("%d sampled lattice points are on the other side of the threshold than for the union of the shapes added so far; %s || case: %s", mismatch, firstMis, desc), hs)
+			return res
 		}
 		if why, thin := thinFeature(rec, g, step.Cut, hs.CPU); thin {
 			res.Inconclusive = "degenerate (surface feature thinner than the 0.001 weld): " + why
@@ -355,6 +419,7 @@ func historyCase(c *run.Ctx) run.Result {
 		}
 	}
 	res.Count("histories", 1)
+	res.Count("history_fields_combined_from_a_reused_slice", int64(unions))
 	res.Nontrivial = marches >= 2 && newBlocksSinceMarch
 	var ops []string
 	for _, s := range hs.Steps {
